@@ -61,7 +61,20 @@ func checkC15(c *Ctx) {
 			setKernel(hwAVX512 && r.Bool())
 			calls = append(calls, fmt.Sprintf("%s(len=%d,copy=%v,nd=%v)", kind, len(doc), cp, nd))
 			var got, want ParseOut
-			ok := withDeadline(30*time.Second, func() { got = implParse(doc, nd, cp, reuse) })
+			// one call in three passes no option at all: the documented default
+			// (copy strings) must apply whatever the reused object was used for before
+			noOpt := r.Chance(1, 3)
+			if noOpt {
+				cp = true
+				calls[len(calls)-1] += "[no-option]"
+			}
+			ok := withDeadline(30*time.Second, func() {
+				if noOpt {
+					got = implParseDefault(doc, nd, reuse)
+				} else {
+					got = implParse(doc, nd, cp, reuse)
+				}
+			})
 			info := map[string]interface{}{"history": strings.Join(calls, " ; "), "doc_hex": fmt.Sprintf("%x", trunc(string(doc), 2000)), "doc_len": len(doc)}
 			if !ok {
 				c.Violate("hang", "Parse with a reused object did not return within 30 s", "reuse-hang", info)
@@ -85,6 +98,11 @@ func checkC15(c *Ctx) {
 				lastFailed = false
 				a, e1 := dumpDoc(got.PJ)
 				b, e2 := dumpDoc(want.PJ)
+				if !eqU64(got.Tape, want.Tape) || string(got.Strings) != string(want.Strings) {
+					info["reused_tape"], info["fresh_tape"] = trunc(tapeHex(got.Tape), 400), trunc(tapeHex(want.Tape), 400)
+					c.Violate("reuse", "tape or string buffer produced with a reused ParsedJson differs from a fresh parse", "reuse-tape", info)
+					break
+				}
 				if e1 != nil || e2 != nil || a != b {
 					info["reused"], info["fresh"] = trunc(a, 300), trunc(b, 300)
 					c.Violate("reuse", "document parsed into a reused ParsedJson differs from a fresh parse", "reuse-doc", info)
